@@ -15,6 +15,9 @@ import (
 // Returns ct.False if the inputs are invalid (not odd primes or equal).
 func NewOddPrimeFactors(p, q *numct.Nat) (factors *OddPrimeFactors, ok ct.Bool) {
 	allOk := p.Equal(q).Not() & p.IsProbablyPrime() & q.IsProbablyPrime() & p.IsOdd() & q.IsOdd()
+	if allOk == ct.False {
+		return nil, ct.False
+	}
 
 	params, ok := crt.PrecomputePairExtended(p, q)
 	allOk &= ok
